@@ -362,7 +362,11 @@ class Stream(object):
             if file_is_async:
                 yield from file.drain()
 
-        response.fields.parse(trailer_data)
+        try:
+            response.fields.parse(trailer_data)
+        except ValueError as error:
+            raise ProtocolError(
+                'Invalid chunked trailer: {0}'.format(error)) from error
 
     @classmethod
     def get_read_strategy(cls, response):
